@@ -363,6 +363,45 @@ func c02Run(w *W) {
 		it = itertool.MergeSliceIterators(fun.SliceIterator(parts))
 		desc = []string{fmt.Sprintf("MergeSliceIterators(%d)", nsrc)}
 	}
+	// ---- an input with a history: the stages are built over an iterator that
+	// has already been read from (the specification is the remainder), or
+	// closed, or drained (it "yields nothing further", through whatever is
+	// stacked on it afterwards)
+	if pre := simrt.Choose(6); pre >= 3 {
+		for _, f := range p.feeders {
+			simrt.Spawn("feeder", f)
+		}
+		p.feeders = nil
+		k := simrt.Choose(len(ref) + 1)
+		switch pre {
+		case 3:
+			desc = append(desc, fmt.Sprintf("[%d read before]", k))
+		case 4:
+			desc = append(desc, fmt.Sprintf("[%d read, then Close, before]", k))
+		case 5:
+			k = len(ref) + 1
+			desc = append(desc, "[drained before]")
+		}
+		for i := 0; i < k; i++ {
+			v, err := it.ReadOne(ctx)
+			if i < len(ref) && (err != nil || v != ref[i]) {
+				w.Violate("spec-mismatch", "spec-mismatch:ReadOne*", "%s: read %d of the input gave %d, %v; want %d", strings.Join(desc, " | "), i, v, err, ref[i])
+				return
+			}
+			if i >= len(ref) && err == nil {
+				w.Violate("spec-mismatch", "spec-mismatch:ReadOne*", "%s: the input yielded %d beyond its %d items", strings.Join(desc, " | "), v, len(ref))
+				return
+			}
+		}
+		if pre == 4 {
+			_ = it.Close()
+		}
+		if pre == 3 {
+			ref = append([]int{}, ref[k:]...)
+		} else {
+			ref = nil
+		}
+	}
 	// ---- unary stages ----
 	nst := simrt.Choose(5)
 	abortPlanned := false
